@@ -316,6 +316,17 @@ Fixpoint all_info (flex : bool) (a : addr) (m : tmem) (k : N) (l : list stage) :
   end.
 Definition tq_all_member (a : addr) (w : tw) : result (list (N * bool * N)) :=
   if valid a then Ok (all_info (t_flex w) a (t_mem w) 0 (t_stages w)) else Err.
+(* tiered-whitelist-flex Member { member }: the mint count stored for the active stage;
+   an error without an active stage or when not stored there; not a query of the non-flex kind *)
+Definition tq_member (now : N) (a : addr) (w : tw) : result N :=
+  if t_flex w then
+    if valid a then
+      match active_index now 0 (t_stages w) with
+      | Some k => match t_get k a (t_mem w) with Some c => Ok c | None => Err end
+      | None => Err
+      end
+    else Err
+  else Err.
 Definition tq_can_execute (a : addr) (w : tw) : result bool :=
   if valid a then Ok (t_is_admin a w) else Err.
 Definition tq_admin_list (w : tw) : list addr * bool := (t_admins w, t_mutable w).
